@@ -120,3 +120,103 @@ locktime!(locktime_n3, 3);
 //@begin prop=C08 tier=thorough mem=16 timeout=3000 desc="locktime() == BIP370 rule, n inputs with symbolic requirements"
 locktime!(locktime_n4, 4);
 //@end
+
+// ---------------------------------------------------------------- tx -> PSET -> tx
+use crate::refm::eq32;
+use elements::confidential::{Asset, Nonce, Value};
+use elements::hashes::Hash;
+use elements::{AssetId, AssetIssuance, OutPoint, Script, Sequence, Transaction, TxIn, TxInWitness, TxOut, TxOutWitness, Txid};
+
+fn script2(b: [u8; 2]) -> Script {
+    Script::from(b.to_vec())
+}
+fn same_script2(s: &Script, b: &[u8; 2]) -> bool {
+    let x = s.as_bytes();
+    x.len() == 2 && x[0] == b[0] && x[1] == b[1]
+}
+fn same_stack1(v: &Vec<Vec<u8>>, present: bool, b: u8) -> bool {
+    if present { v.len() == 1 && v[0].len() == 1 && v[0][0] == b } else { v.is_empty() }
+}
+
+/// issuance kinds: 0 none, 1 explicit amount + null keys, 2 confidential amount + explicit keys (reissuance nonce)
+fn roundtrip_check(issuance_kind: u8) {
+    let txid: [u8; 32] = kani::any();
+    let vout: u32 = kani::any();
+    kani::assume(vout < (1 << 30) || vout == 0xffff_ffff);
+    let pegin: bool = kani::any();
+    let seq: u32 = kani::any();
+    let ssig: [u8; 2] = kani::any();
+    let (version, lock): (u32, u32) = (kani::any(), kani::any());
+    let (has_sw, sw, has_pw, pw): (bool, u8, bool, u8) = (kani::any(), kani::any(), kani::any(), kani::any());
+    kani::assume(!has_pw || pegin); // well-formed: pegin witness only on pegin inputs
+    // the Elements format cannot represent index 2^30-1 with both flags (it is the coinbase sentinel)
+    kani::assume(!(vout == 0x3fff_ffff && pegin && issuance_kind != 0));
+    let entropy: [u8; 32] = kani::any();
+    let (amt, keys): (u64, u64) = (kani::any(), kani::any());
+    let issuance = match issuance_kind {
+        0 => AssetIssuance::default(),
+        1 => AssetIssuance { asset_blinding_nonce: elements::confidential::AssetBlindingFactor::zero().into_inner(), asset_entropy: entropy, amount: Value::Explicit(amt), inflation_keys: Value::Null },
+        _ => AssetIssuance { asset_blinding_nonce: elements::confidential::AssetBlindingFactor::zero().into_inner(), asset_entropy: entropy, amount: crate::util::genuine_value_commitment(false), inflation_keys: Value::Explicit(keys) },
+    };
+    let out_asset: [u8; 32] = kani::any();
+    let out_value: u64 = kani::any();
+    let spk: [u8; 2] = kani::any();
+    let tx = Transaction {
+        version,
+        lock_time: LockTime::from_consensus(lock),
+        input: vec![TxIn {
+            previous_output: OutPoint::new(Txid::from_byte_array(txid), vout),
+            is_pegin: pegin,
+            script_sig: script2(ssig),
+            sequence: Sequence(seq),
+            asset_issuance: issuance,
+            witness: TxInWitness {
+                amount_rangeproof: None,
+                inflation_keys_rangeproof: None,
+                script_witness: if has_sw { vec![vec![sw]] } else { vec![] },
+                pegin_witness: if has_pw { vec![vec![pw]] } else { vec![] },
+            },
+        }],
+        output: vec![TxOut { asset: Asset::Explicit(AssetId::from_byte_array(out_asset)), value: Value::Explicit(out_value), nonce: Nonce::Null, script_pubkey: script2(spk), witness: TxOutWitness::default() }],
+    };
+    let pset = Pset::from_tx(tx);
+    match pset.extract_tx() {
+        Ok(t) => {
+            assert!(t.version == version && t.lock_time.to_consensus_u32() == lock, "version and lock time survive");
+            assert!(t.input.len() == 1 && t.output.len() == 1);
+            let i = &t.input[0];
+            assert!(eq32(&i.previous_output.txid.to_byte_array(), &txid) && i.previous_output.vout == vout, "outpoint survives without flag bits");
+            assert!(i.is_pegin == pegin, "pegin flag survives");
+            assert!(i.sequence.0 == seq && same_script2(&i.script_sig, &ssig), "sequence and script_sig survive");
+            assert!(i.asset_issuance == issuance, "issuance survives exactly");
+            assert!(same_stack1(&i.witness.script_witness, has_sw, sw) && same_stack1(&i.witness.pegin_witness, has_pw, pw), "witness stacks survive");
+            assert!(i.witness.amount_rangeproof.is_none() && i.witness.inflation_keys_rangeproof.is_none());
+            let o = &t.output[0];
+            assert!(o.asset == Asset::Explicit(AssetId::from_byte_array(out_asset)) && o.value == Value::Explicit(out_value) && o.nonce.is_null() && same_script2(&o.script_pubkey, &spk) && o.witness.is_empty(), "output survives");
+            kani::cover!(pegin && has_pw, "pegin input with pegin witness");
+            kani::cover!(vout == 0xffff_ffff, "null outpoint index");
+            core::mem::forget(t);
+        }
+        Err(e) => {
+            core::mem::forget(e);
+            assert!(false, "a PSET built from a transaction extracts");
+        }
+    }
+    core::mem::forget(pset);
+}
+macro_rules! rtt {
+    ($name:ident, $k:expr) => {
+        #[kani::proof]
+        #[kani::unwind(6)]
+        #[kani::stub(<core::any::TypeId as crate::stubs::traits::PEq>::eq, crate::stubs::typeid_eq_model)]
+        pub fn $name() {
+            roundtrip_check($k);
+        }
+    };
+}
+// NOT REGISTERED: out of memory at 44 GB (PSET structs; DESIGN 7.4)
+// begin prop=C08 desc="extract_tx(from_tx(tx)) == tx fieldwise for a symbolic well-formed 1-input/1-output transaction: outpoint (index < 2^30 or null), pegin flag, sequence, script_sig, issuance kind per shard, script/pegin witness presence; explicit output" unsat_ok="pegin input with pegin witness,null outpoint index"
+rtt!(roundtrip_no_issuance, 0);
+rtt!(roundtrip_explicit_issuance, 1);
+rtt!(roundtrip_blinded_issuance, 2);
+// end
